@@ -645,6 +645,7 @@ class Model:
         if self.last_interrupt.get(p.name) == self.now or any(True for _ in p.interrupts):
             p.ended_after_interrupt = True
         p.finish_time = self.now
+        p.finish_tick = getattr(self, 'tick', 0)
         p.alive = False
         p.interrupts = []
         self.trigger(p.result, state)
@@ -679,6 +680,8 @@ class Model:
             if tgt.pc < 0 and tgt.waiting is None:
                 raise InvalidCase('interrupt of a process that has not started')
             if getattr(tgt, 'finish_time', None) == self.now:
+                if getattr(ev, 'triggered_by', None) == tgt.name and getattr(tgt, 'finish_tick', None) == ev.trigger_tick:
+                    continue        # the process triggered the event as its last action: it has ended, the interrupt is ignored
                 raise Ambiguous('interrupt of a process that ends in this very time step')
             if tgt.alive:
                 tgt.interrupts.append(cause)
